@@ -142,7 +142,122 @@ def listeners(ob, tier):
     return dict(res, verdict="holds")
 
 
+def proxy_agreement(ob, tier):
+    """FileClusterConfig::to_cluster_config, TCP branch: a cluster whose frontends sit on
+    listeners that disagree on `expect_proxy` is rejected at load time whichever order the
+    frontends are written in.  Two passes of the frontend loop, `contains` uninterpreted
+    (arbitrary answers e0, e1): reaching the second frontend's conversion implies e0 == e1."""
+    fn = mirrun.get_fn("command", "::to_cluster_config", sig="_1: FileClusterConfig")
+    ex = engine.Executor(fn, loop_bound=lambda f, h: 1, max_nodes=200000)
+    ev = ex.run()
+    for i, e in enumerate(ev):
+        e.seq = i
+    q = Q(ex.ctx)
+    res = {"paths": ex.stats["nodes"], "functions": [fn.name]}
+    cont = [e for e in ev if e.kind == "call" and re.search(r"HashSet::<std::net::SocketAddr>::contains", e.callee) and e.result is not None]
+    conv = [e for e in ev if e.kind == "call" and e.callee.endswith("::to_tcp_front")]
+    if len(cont) != 2 or len(conv) != 2 or cont[0].node[1] == cont[1].node[1]:
+        return dict(res, verdict="inconclusive", why="shape: expect_proxy lookups=%d tcp conversions=%d in two unrolled passes" % (len(cont), len(conv)))
+    e0, e1 = cont[0].result.term, cont[1].result.term
+    second = [c for c in conv if c.node[1] == cont[1].node[1]][0]
+    problems = []
+    if q([second.guard, e0, engine.NOT(e1)]) != "unsat":
+        problems.append("a TCP cluster whose first frontend is on an expect_proxy listener and a later one on a plain listener is accepted")
+    if q([second.guard, engine.NOT(e0), e1]) != "unsat":
+        problems.append("a TCP cluster whose first frontend is on a plain listener and a later one on an expect_proxy listener is accepted (the mixing check depends on the order of the frontends)")
+    wit = [q([second.guard, e0, e1]), q([second.guard, engine.NOT(e0), engine.NOT(e1)])]
+    res["witness"] = "homogeneous clusters reach the second frontend: %s" % wit
+    res["witness_ok"] = all(w == "sat" for w in wit)
+    res["queries"], res["solver_s"] = q.n, round(q.secs, 2)
+    if problems:
+        return dict(res, verdict="counterexample", text="; ".join(problems), model={"problems": problems}, replay={"reproduced": False, "why": "no native replay"})
+    return dict(res, verdict="holds")
+
+
+def verbatim(ob, tier):
+    """HttpClusterConfig / TcpClusterConfig::generate_requests: the AddCluster message carries
+    each scalar per-cluster knob exactly as declared: for every `Option<integer|bool>` field
+    that exists under the same name and type on both sides, the solvers decide that the
+    discriminant and the payload of the message field equal those of the field of self
+    (absent, Some(0) and Some(n) are three different declarations: inherit / explicitly
+    unlimited / limit)."""
+    problems, fnames, nodes, wit = [], [], 0, []
+    tq, ts = 0, 0.0
+    proto = open(mirrun.REPO + "/command/src/proto/command.rs").read()
+    m = re.search(r"pub struct Cluster \{(.*?)\n\}", proto, re.S)
+    pdecl = re.findall(r"^\s*pub (\w+):\s*([^\n]*?),?\s*$", m.group(1), re.M)
+    pnames = [n for n, _ in pdecl]
+    scalar = r"^(?:::core::option::)?Option<(u64|u32|i32|i64|bool|usize)>$"
+    for struct in ("HttpClusterConfig", "TcpClusterConfig"):
+        src = open(mirrun.REPO + "/command/src/config.rs").read()
+        ms = re.search(r"pub struct %s \{(.*?)\n\}" % struct, src, re.S)
+        sdecl = re.findall(r"^\s*(?:pub(?:\([\w:]+\))? )?(\w+):\s*([^\n]*?),?\s*$", re.sub(r"//.*", "", ms.group(1)), re.M)
+        snames = [n for n, _ in sdecl]
+        fn = mirrun.get_fn("command", "::generate_requests", sig="&%s" % struct)
+        ex = engine.Executor(fn, loop_bound=lambda f, h: 1, max_nodes=200000)
+        ev = ex.run()
+        q = Q(ex.ctx)
+        fnames.append(fn.name)
+        nodes += ex.stats["nodes"]
+        agg = [(bb, st) for bb, b in fn.blocks.items() for st in b["stmts"] if re.search(r"^_\d+ = (?:[\w:]*::)?Cluster \{ ", st)]
+        if len(agg) != 1:
+            problems.append("%s: shape (Cluster literals=%d)" % (struct, len(agg)))
+            continue
+        loc = agg[0][1].split(" = ", 1)[0]
+        after = [e for e in ev if e.kind == "call" and ("%s.0" % loc) in e.env]
+        if not after:
+            problems.append("%s: shape (no event after the Cluster literal)" % struct)
+            continue
+        e0 = after[0]
+        checked = 0
+        for pi, (name, pty) in enumerate(pdecl):
+            mm = re.match(scalar, pty.strip())
+            if not mm or name not in snames:
+                continue
+            sty = sdecl[snames.index(name)][1].strip()
+            if re.sub(r"\s", "", sty) != "Option<%s>" % mm.group(1):
+                continue
+            si = snames.index(name)
+            env0 = dict(e0.env)
+            dd = ex.read_discr(env0, "%s.%d" % (loc, pi))
+            sd = ex.read_discr({}, "(*_1).%d" % si)
+            dp = ex.read(env0, "(%s.%d as Some).0" % (loc, pi), mm.group(1))
+            sp = ex.read({}, "((*_1).%d as Some).0" % si, mm.group(1))
+            if dd is None or sd is None:
+                # the field is not a plain copy of the declared one: its presence is decided elsewhere
+                dd = dd or engine.Val(ex.ctx.sym("rewritten.%s" % name, 64), 64)
+                sd = sd or engine.Val(ex.ctx.sym("declared.%s" % name, 64), 64)
+            v1 = q([e0.guard, engine.NOT("(= %s %s)" % (dd.term, sd.term))])
+            v2 = "unsat"
+            if dp is not None and sp is not None and dp.sort == sp.sort:
+                v2 = q([e0.guard, "(= %s %s)" % (sd.term, engine.bv(1, 64)), engine.NOT("(= %s %s)" % (dp.term, sp.term))])
+            if v1 != "unsat" or v2 != "unsat":
+                problems.append("%s::generate_requests does not carry `%s` into AddCluster as declared (absent / Some(0) / Some(n) can be rewritten)" % (struct, name))
+            checked += 1
+        wit.append(checked)
+        tq += q.n
+        ts += q.secs
+    res = {"paths": nodes, "functions": fnames, "witness": "scalar optional knobs compared per builder: %s" % wit,
+           "witness_ok": bool(wit) and all(w >= 2 for w in wit), "queries": tq, "solver_s": round(ts, 2)}
+    if problems:
+        return dict(res, verdict="counterexample", text="; ".join(problems), model={"problems": problems}, replay={"reproduced": False, "why": "no native replay"})
+    return dict(res, verdict="holds")
+
+
+def _clone_of(fn, call_text, field_idx):
+    """`_k = <T as Clone>::clone(move _j)` with `_j = &((*_1).field_idx: T)`"""
+    m = re.search(r"clone\((?:move|copy) (_\d+)\)", call_text)
+    if not m:
+        return False
+    stmts = [st for b in fn.blocks.values() for st in b["stmts"]]
+    return any(re.match(r"^%s = &\(\(\*_1\)\.%d: " % (re.escape(m.group(1)), field_idx), st) for st in stmts)
+
+
 def run(ob, tier):
+    if ob.get("which") == "proxy_agreement":
+        return proxy_agreement(ob, tier)
+    if ob.get("which") == "verbatim":
+        return verbatim(ob, tier)
     if ob.get("which") == "emitted":
         return emitted(ob, tier)
     if ob.get("which") == "listeners":
